@@ -146,8 +146,10 @@ def _serialize_field(
     if isinstance(field, String):
         # TODO do we need to set the shape to empty?
         #  do we need to treat missing strings differently from empty strings?
+        # The shape counts bytes, strings are stored as UTF-8.
+        n_bytes = len(field.value.encode("utf-8"))
         return ObjectArray(
-            ty=field.ty, shape=(len(field.value),) if field.value else (), data=[field]
+            ty=field.ty, shape=(n_bytes,) if field.value else (), data=[field]
         )
     if isinstance(field, Array):
         return ObjectArray(ty=field.ty, shape=field.value.shape[::-1], data=field.value)
